@@ -15,6 +15,7 @@ import (
 	"github.com/ah-naf/borno/parser"
 	"github.com/ah-naf/borno/token"
 	"github.com/ah-naf/borno/utils"
+	"golang.org/x/text/unicode/norm"
 )
 
 const (
@@ -25,7 +26,9 @@ const (
 
 // two of the names differ only in letter case: an ordering that ignores case (or any other
 // accidental tie) then depends on the order in which the map hands the keys over
-var obKeys = [4]string{"ka", "Ka", "kb", "kc"}
+// … and two are canonically equivalent spellings (U+09DF vs U+09AF U+09BC): distinct keys
+// that an ordering by normalised form cannot tell apart
+var obKeys = [4]string{"ka", "Ka", "k\u09df", "k\u09af\u09bc"}
 
 type mObject struct {
 	has  [4]bool
@@ -246,9 +249,9 @@ func VH_object(nkeys int, steps int) {
 				for j := 0; j < 4; j++ {
 					if m.has[j] {
 						if m.null[j] {
-							verifAssert("printed-object-shows-every-property", verifTextContainsInOrder(text, obKeys[j], "nil"))
+							verifAssert("printed-object-shows-every-property", verifTextContainsInOrder(text, norm.NFC.String(obKeys[j])+":", "nil"))
 						} else {
-							verifAssert("printed-object-shows-every-property", verifTextContainsInOrder(text, obKeys[j], fmt.Sprintf("%v", m.vals[j])))
+							verifAssert("printed-object-shows-every-property", verifTextContainsInOrder(text, norm.NFC.String(obKeys[j])+":"+fmt.Sprintf("%v", m.vals[j])))
 						}
 					}
 				}
